@@ -81,7 +81,6 @@ func (f *FSM) AddState(match string, matchMetricType string, maxPossibleTransiti
 		roots = append(roots, f.root.transitions[matchMetricType])
 	}
 	var captureCount int
-	var finalStates []*mappingState
 	// iterating over different start state (different metric types)
 	for _, root := range roots {
 		captureCount = 0
@@ -95,13 +94,15 @@ func (f *FSM) AddState(match string, matchMetricType string, maxPossibleTransiti
 				(*state).maxRemainingLength = len(matchFields) - i - 1
 				(*state).minRemainingLength = len(matchFields) - i - 1
 				root.transitions[field] = state
-				// if this is last field, set result to currentMapping instance
-				if i == len(matchFields)-1 {
-					root.transitions[field].Result = result
-				}
 			} else {
 				(*state).maxRemainingLength = max(len(matchFields)-i-1, (*state).maxRemainingLength)
 				(*state).minRemainingLength = min(len(matchFields)-i-1, (*state).minRemainingLength)
+			}
+			// if this is last field, set result to currentMapping instance,
+			// unless an earlier rule with the same match already ends here
+			if i == len(matchFields)-1 && state.Result == nil {
+				state.Result = result
+				state.ResultPriority = f.statesCount
 			}
 			if field == "*" {
 				captureCount++
@@ -110,11 +111,6 @@ func (f *FSM) AddState(match string, matchMetricType string, maxPossibleTransiti
 			// goto next state
 			root = state
 		}
-		finalStates = append(finalStates, root)
-	}
-
-	for _, state := range finalStates {
-		state.ResultPriority = f.statesCount
 	}
 
 	f.statesCount++
